@@ -209,7 +209,11 @@ where
     type Stream = Self;
 
     fn into_parts(self) -> (Vector<VectorDiffContainerStreamElement<S>>, Self::Stream) {
-        (self.buffered_vector.clone(), self)
+        // Hand over the current (limited) view, not the replica of the underlying vector.
+        let mut values = self.buffered_vector.clone();
+        values.truncate(self.limit);
+
+        (values, self)
     }
 }
 
